@@ -38,7 +38,7 @@ def string_is_complex(series: pd.Series, state: dict) -> bool:
     return (
         coerced_series is not None
         and not all(v.imag == 0 for v in coerced_series.dropna())
-        and imaginary_in_string(series)
+        and imaginary_in_string(series.dropna())
     )
 
 
